@@ -42,6 +42,9 @@ type Op struct {
 func NewOp(ser []labels.Labels, batches [][]Step, batchSize int) *Op {
 	p := model.NewVectorPool(batchSize)
 	p.SetStepSize(len(ser))
+	// label sets handed out by an operator may alias storage-owned memory: any store
+	// into them by a consumer is a violation of C17 (executor write barrier)
+	sym.ReadOnly("child-series-labels", ser)
 	return &Op{Ser: ser, Batches: batches, Pool: p, NextErrAt: -1}
 }
 
